@@ -44,6 +44,32 @@ def showHandler (withFlag : Bool) (t : ElemTy) : HandlerOut → String
   | .reject ec => "reject " ++ toString ec
   | .err _ => "err Beve"
 
+/-- First two words of an observation joined by `:` (what the `wrong*` ops print per decoder). -/
+def short (s : String) : String := ":".intercalate ((s.splitOn " ").take 2)
+
+/-- A body through the four decoders of element type `t`: `decode_typed_slice`, `decode_complex_slice`,
+the bulk route and the borrowing route (frame at an aligned base, 4-byte path). -/
+def allDecoders (t : ElemTy) (fmt : Nat) (body : Bytes) : String :=
+  joinSp [
+    "dec=" ++ short (showN showRaw' (decodeTypedSliceRaw F fmt t body)),
+    "cdec=" ++ short (showN showRaw' (decodeComplexSliceRaw F fmt t body)),
+    "slice=" ++ short (showHandler false t (sliceHandler F t fmt body)),
+    "ref=" ++ short (showHandler false t (sliceRefHandler F t fmt (48 + 4) body))]
+where showRaw' (r : Nat × Bytes) : String := toString r.1 ++ " " ++ hexOfBytes r.2
+
+def showCall : Except CallErr (List Bytes) → String
+  | .ok ys => "ok " ++ showElems ys
+  | .error (.server ec) => "err Server(" ++ toString ec ++ ")"
+  | .error (.client .unexpectedBodyFormat) => "err UnexpectedBodyFormat"
+  | .error (.client (.beve _)) => "err Beve"
+
+/-- The address of the server's receive buffer is not observable over a socket: the result of a call
+must not depend on it (computed for an aligned and an unaligned landing). -/
+def netObs (kd : ClientKind) (rt : RouteKind) (t : ElemTy) (plen : Nat) (xs : List Bytes) : String :=
+  let r0 := showCall (call F kd rt t plen 0 xs)
+  let r1 := showCall (call F kd rt t plen 1 xs)
+  if r0 == r1 then r0 else "address-dependent"
+
 def showRaw (r : Nat × Bytes) : String := toString r.1 ++ " " ++ hexOfBytes r.2
 
 def step (_ : Unit) (ws : List String) : Unit × String :=
@@ -99,6 +125,52 @@ def step (_ : Unit) (ws : List String) : Unit × String :=
           | .ok a => toString (48 + qlen + a.dataOffset)
           | .error _ => "?"
         ((), joinSp [idx, hexOfBytes body, "off", off, "size", toString (alignedSliceSize t n (48 + qlen))])
+    | _, _, _, _ => bad idx
+  | ["aref", idx, c, k, mis, qlen, qafter, _wire, n, p] =>
+    -- body built for the query (or, qafter = 1, before the query was set: padded for offset 48)
+    match tyOf c k, mis.toNat?, qlen.toNat?, n.toNat?, unhex p with
+    | some t, some mis, some qlen, some n, some p =>
+      if p.length ≠ n * t.width then bad idx
+      else
+        let body := encodeAlignedRaw t n p (baseOffset F.baseTerms (if qafter = "1" then 0 else qlen))
+        ((), joinSp [idx, hexOfBytes body, showHandler true t (sliceRefHandler F t BEVE (mis + 48 + qlen) body)])
+    | _, _, _, _, _ => bad idx
+  | ["wrong", idx, c, k, c2, k2, form, n, p] =>
+    match tyOf c k, tyOf c2 k2, n.toNat?, unhex p with
+    | some t, some t2, some n, some p =>
+      let w := if form = "complex" then 2 * t2.width else t2.width
+      if p.length ≠ n * w then bad idx
+      else
+        let body? : Option Bytes :=
+          if form = "regular" then some (encodeTypedRaw t2 n p)
+          else if form = "aligned" then some (encodeAlignedRaw t2 n p (baseOffset F.baseTerms 4))
+          else if form = "complex" then some (encodeComplexRaw t2 n p)
+          else none
+        match body? with
+        | some body => ((), joinSp [idx, hexOfBytes body, allDecoders t BEVE body])
+        | none => bad idx
+    | _, _, _, _ => bad idx
+  | ["wrongfmt", idx, c, k, fmt, n, p] =>
+    match tyOf c k, fmt.toNat?, n.toNat?, unhex p with
+    | some t, some fmt, some n, some p =>
+      if p.length ≠ n * t.width then bad idx
+      else ((), joinSp [idx, allDecoders t fmt (encodeTypedRaw t n p)])
+    | _, _, _, _ => bad idx
+  | ["net", idx, _server, _client, kind, route, c, k, plen, n, p] =>
+    match tyOf c k, plen.toNat?, n.toNat?, unhex p with
+    | some t, some plen, some n, some p =>
+      let kind? : Option ClientKind :=
+        if kind = "bulk" then some .bulk else if kind = "aligned" then some .aligned
+        else if kind = "serde" then some .serde else none
+      let route? : Option RouteKind :=
+        if route = "slice" then some .slice else if route = "ref" then some .sliceRef
+        else if route = "typed" then some .typed else none
+      match kind?, route? with
+      | some kd, some rt =>
+        if p.length ≠ n * t.width then bad idx
+        else
+          ((), idx ++ " " ++ netObs kd rt t plen (chunks t.width n p))
+      | _, _ => bad idx
     | _, _, _, _ => bad idx
   | ["ref", idx, c, k, fmt, mis, qlen, p] =>
     -- the frame starts at an address ≡ mis (mod 8); the body at mis + 48 + qlen
